@@ -126,6 +126,17 @@ def units(tier):
     return U
 
 
+def provides(keys, units):
+    """the call-site contract of Command.from_frame (contracts/command.py: total on forward frames, result carries the
+    frame) is this property's own statement: all decode units"""
+    if "dali.command:Command.from_frame" in keys:
+        return list(units)
+    return []
+
+
+# checks whose proof units establish the callee contracts applied here (re-verified by this check, see main.dependency_units)
+DEPENDENCIES = ['C04', 'C05', 'C12']
+
 META = {
     "level": "proof",
     "bounds": {"16-bit": "all 2^16 data words x any int device type (symbolic)",
